@@ -32,8 +32,9 @@ LEVEL_NOTE = (
 TECHNIQUE = ("Lean 4 proof by structural induction over trees of a generic BURS totality theorem + decide +kernel of its premise on "
              "tables regenerated from live ppci objects + differential labelling of real selection trees")
 RULE = ("matrix: per target every (binop|unop|cast|const|load|store|cjmp x6 conditions|phi|call|alloc|global|copyblob|undef) x every value "
-        "type incl. ptr, opt levels 0 and 2; random structured IR functions (straight-line + diamond with phis + loop) over the target's "
-        "types. distinct = distinct (target, tree skeleton incl. accepted conditional rules); non-trivial = tree of depth >= 2 or an "
+        "type incl. ptr, opt levels 0 and 2; fixed corpus (known findings, six loop-header phi shapes incl. self-referencing and swapping "
+        "phis, C sources with continue/break at levels 0/1/2/s); random structured IR functions (own generator: straight-line + diamonds + "
+        "loops with self/swap phis; shared harness/irgen.py modules at levels 0/1/2/s) over the target's types. distinct = distinct (target, tree skeleton incl. accepted conditional rules); non-trivial = tree of depth >= 2 or an "
         "uncovered tree")
 TRUSTED = [
     "T2 extractor harness/c29.py:extract (burg rules via InstructionSelector1(arch).sys; alphabet via the real SelectionGraphBuilder.build on the spec matrix + dagsplit's MOV/REG wrapping)",
@@ -1138,7 +1139,7 @@ def known_heads(ctx, key):
     return out
 
 
-def corpus_jobs():
+def corpus_jobs(thorough=True):
     """fixed corpus: inputs of the known findings that are not tree-cover gaps + past disagreements"""
     jobs = []
     for key in TARGETS:
@@ -1160,9 +1161,12 @@ def corpus_jobs():
         for sh in PHI_SHAPES:
             jobs += [(key, {"k": "phishape", "shape": sh}, 0), (key, {"k": "phishape", "shape": sh}, 2)]
         for name in C_SOURCES:
-            jobs += [(key, {"k": "csrc", "name": name, "march": TARGETS[key]}, lvl) for lvl in (0, 1, 2, "s")]
+            lvls = (0, 1, 2, "s") if thorough else ((1, "s") if name == "continue" else (2,))
+            jobs += [(key, {"k": "csrc", "name": name, "march": TARGETS[key]}, lvl) for lvl in lvls]
     # register allocator gives up after 30 spill rounds (module found by the shared generator, kept as IR text)
     jobs += [(key, {"k": "irfile", "file": "regalloc_giveup_arm.ir"}, 0) for key in ("arm", "riscv", "x86_64")]
+    # fixed (09fcb10): spill code for a thumb frame slot beyond 255 bytes needed context.frame
+    jobs += [(key, {"k": "irfile", "file": "thumb_spill_fprel.ir"}, 0) for key in ("thumb", "arm")]
     # fixed: rvc matched `c >> reg` with the reg-by-constant pattern (821633c)
     jobs += [(key, {"k": "binopc", "op": op, "ty": "i32", "value": v, "side": sd}, 0)
              for key in ("riscv", "rvc") for op in ("<<", ">>") for sd, v in (("l", -100), ("l", 5), ("r", -1), ("r", 3), ("r", 40))]
@@ -1275,7 +1279,7 @@ def check(ctx):
         t0 = time.time()
     info = {k: extract(k) for k in TARGETS}
     # ---- corpus + the (target, op, type) matrix at opt 0 and 2 (quick: opt 2 for a seeded quarter) ----------------
-    jobs = corpus_jobs()
+    jobs = corpus_jobs(ctx.thorough)
     for k in TARGETS:
         for spec in info[k]["specs"]:
             jobs.append((k, spec, 0))
@@ -1293,13 +1297,13 @@ def check(ctx):
                     "avoid": [] if free else d["excluded"], "size": ctx.rng.choice([4, 8, 16, 30])}
             rjobs.append((k, spec, ctx.rng.choice([0, 2])))
     # ---- modules of the shared generator harness/irgen.py (continue/break, swaps, self-referencing phis, switch chains)
-    ni = 150 if ctx.thorough else 16
+    ni = 150 if ctx.thorough else 8
     for k in TARGETS:
         wide = ["i32", "u32"] + (["i64", "u64"] if "i64" in info[k]["types"] else [])
         allint = [t for t in info[k]["types"] if t[0] in "iu"]
         for i in range(ni):
             spec = {"k": "irgen", "seed": ctx.rng.getrandbits(32), "int_types": allint if i % 4 == 3 else wide,
-                    "undefined": i % 2 == 0, "indirect": i % 5 == 0, "stmts": ctx.rng.choice([12, 30, 60]),
+                    "undefined": i % 2 == 0, "indirect": i % 5 == 0, "stmts": ctx.rng.choice([12, 30, 60] if ctx.thorough else [12, 30]),
                     "mem": "i64" in info[k]["types"]}
             rjobs.append((k, spec, ctx.rng.choice([0, 1, 2, "s"])))
     # ---- targeted search around heads that newly lack an unconditional flat rule, and the conditional-only heads ------
